@@ -23,6 +23,7 @@ from sa.terms import T
 from sa.pyfront import Program
 
 RULES = {
+    "R-C18-g": "standard deviation: the sum of squared deviations is accumulated from deviations (x - mean)**2 (two-pass), not as sum(w*x*x) - mean*sum(w*x), whose subtraction cancels catastrophically for values that are large relative to their spread",
     "R-C18-a": "stddev: a cell with fewer than two valid rows is reported missing under both policies",
     "R-C18-b": "pair-format validity = ~(mask at which the sentinel is written), for every array-cube-only statistic",
     "R-C18-c": "invalid rows are NaN-seeded in the constructor (validity = fact AND weight validity); ignore_missing selects valid rows / uses the NaN-aware routine",
@@ -293,6 +294,41 @@ def rule_f(prog, rep):
     rep.floor("R-C18-f", 4, n)
 
 
+def rule_g(prog, rep):
+    n = 0
+    for w in ("none", "array"):
+        for co in (True, False):
+            ms = AT.model(prog, "xfuncs", "xfunc_stddev", aggr.Config(weights=w, coords=co, N=not co))
+            fi, I, fr = ms.fill
+            sq = [e for e in I.events if e.kind == "call" and e["name"] == "numpy.sqrt" and e["args"]]
+            for e in sq:
+                t = e["args"][0]
+                while t.op == "binop" and t.args[0] in ("/", "*"):
+                    t = t.args[1]
+                while t.op == "call" and (tm.callee_name(t) or "") in (".clip", "numpy.clip", "numpy.maximum", "numpy.abs", "builtins.abs", ".astype"):
+                    t = t.args[0].args[0] if tm.callee_name(t).startswith(".") else t.args[1][0]
+                n += 1
+                where = "%s@%d" % (fi.fq, e.line)
+                cons = "stddev (weights %s, %s): numerator of the variance" % (w, "by coordinates" if co else "no coordinates")
+                red = t.op == "call" and (tm.callee_name(t) or "") in ("numpy.nansum", "numpy.sum", "numpy.bincount", ".sum")
+                if red:
+                    data = tm.kwarg(t, "weights") if tm.callee_name(t) == "numpy.bincount" else (t.args[1][0] if t.args[1] else t.args[0].args[0])
+                    if data is None and tm.callee_name(t) == "numpy.bincount" and len(t.args[1]) > 1:
+                        data = t.args[1][1]
+                    dev2 = data is not None and tm.contains(data, lambda x: x.op == "binop" and ((x.args[0] == "**" and tm.is_const(x.args[2], 2) and tm.contains(x.args[1], lambda y: y.op == "binop" and y.args[0] == "-"))
+                                                                                             or (x.args[0] == "*" and x.args[1] == x.args[2] and x.args[1].op == "binop" and x.args[1].args[0] == "-")))
+                    if dev2:
+                        rep.proved("R-C18-g", where, cons, "a reduction of squared deviations (x - mean)**2")
+                    else:
+                        rep.undecided("R-C18-g", where, cons, "a reduction, but not of a squared difference: %s" % tm.show(data)[:60] if data is not None else "a reduction whose operand is not found")
+                elif t.op == "binop" and t.args[0] == "-" and all(tm.contains(x, lambda y: y.op == "call" and (tm.callee_name(y) or "") in ("numpy.nansum", "numpy.sum", "numpy.bincount", ".sum")) for x in t.args[1:]):
+                    rep.violated("R-C18-g", where, cons, "computed as a DIFFERENCE of two accumulated sums (sum(w*x*x) - mean*sum(w*x)): for values large relative to their spread the subtraction cancels catastrophically and the result is 0 or wrong by up to 100%",
+                                 witness={"inputs": "a cell with values around 1.7e9 (epoch seconds) and a spread of a few tens: the standard deviation comes back 0.0 or far off, and adding a constant to every value changes it"})
+                else:
+                    rep.undecided("R-C18-g", where, cons, "form not recognised: %s" % tm.show(t)[:70])
+    rep.floor("R-C18-g", 4, n)
+
+
 def main(tier):
     rep = core.Report("C18", level="other", rules=RULES, tier=tier,
                       declined="per-cell numerical equality with the textbook statistic (floating-point values)")
@@ -304,6 +340,7 @@ def main(tier):
     rule_d(prog, rep)
     rule_e(prog, rep)
     rule_f(prog, rep)
+    rule_g(prog, rep)
     return rep.finish()
 
 
